@@ -14,6 +14,9 @@ Inductive case :=
 (* VerifyBlock(block{height,bid}, vals) on a list {round, ps, items} *)
 | CVerify (height round : Z) (bid : bytes) (ps : psid) (vals : option (list N))
           (items : list (Z * gsig)) (o : obs)
+(* ONE decoded list object, VerifyBlock called once per (height, block id), in order *)
+| CVerifySeq (round : Z) (ps : psid) (vals : option (list N)) (items : list (Z * gsig))
+             (calls : list (Z * bytes * obs))
 (* the same list carried by a block that is proposed / imported on a fixture chain *)
 | CChain (height round : Z) (bid : bytes) (ps : psid) (vals : list N)
          (items : list (Z * gsig)) (accepted : bool)
@@ -26,6 +29,7 @@ Inductive case :=
 | CEnough (voted voters : N) (r : bool).
 Arguments CFastSync height%Z round%Z bid ps real vals items consumed.
 Arguments CVerify height%Z round%Z bid ps vals items o.
+Arguments CVerifySeq round%Z ps vals items calls.
 Arguments CChain height%Z round%Z bid ps vals items accepted.
 
 (* printing helpers for the harness.
@@ -63,8 +67,28 @@ Fixpoint bools_eqb (a b : list bool) : bool :=
 
 Definition keys (l : list N) : list nat := map N.to_nat l.
 
+Definition obs_ok (m : outcome) (o : obs) : bool :=
+  match m, o with
+  | Accept v, OAccept v' => bools_eqb v v'
+  | Reject, OReject => true
+  | _, _ => false
+  end.
+
+Fixpoint all2 {A B} (f : A -> B -> bool) (a : list A) (b : list B) : bool :=
+  match a, b with
+  | [], [] => true
+  | x :: a', y :: b' => f x y && all2 f a' b'
+  | _, _ => false
+  end.
+
+(* one call of a sequence: height, block id, observed verdict *)
+Definition Cl (h : Z) (bid : bytes) (o : obs) : Z * bytes * obs := (h, bid, o).
+Arguments Cl h%Z bid o.
+
 Definition check (c : case) : bool :=
   match c with
+  | CVerifySeq r ps vals items calls =>
+      all2 obs_ok (gt_verify_session r ps (option_map keys vals) items (map fst calls)) (map snd calls)
   | CVerify h r bid ps vals items o =>
       match gt_verify_block h r bid ps (option_map keys vals) items, o with
       | Accept v, OAccept v' => bools_eqb v v'
